@@ -1,1 +1,26 @@
-/- C02 — theorems (placeholder until the property is built). -/
+/-
+  C02 — Cost volume holds the configured similarity measure, NaN where not computable.
+  (theorems; work in progress)
+-/
+import PandoraModel.Model.MatchingCost
+import PandoraModel.Generated.MatchingCostConsts
+
+namespace Pandora.C02
+open Pandora Pandora.MC
+
+/-! ### 0. What the translator read from the source is what the model uses -/
+
+/-- the bit-trick program of `Census.popcount32b` in the source text is the model's -/
+theorem popcount_source_eq_model : Generated.MatchingCostConsts.popcount32b = MC.popcount32b := by
+  funext row; rfl
+
+/-- the `type_measure` literals of the three classes are the model's -/
+theorem typeMeasure_source_eq_model : Generated.MatchingCostConsts.typeMeasure = MC.typeMeasure := by
+  funext m; cases m <;> rfl
+
+/-- the `cmax` expressions of the three classes are the model's -/
+theorem cmax_source_eq_model :
+    Generated.MatchingCostConsts.cmax = MC.cmaxOf Generated.MatchingCostConsts.cmaxRoundsUp := by
+  funext m a b c d w; cases m <;> rfl
+
+end Pandora.C02
